@@ -301,7 +301,76 @@ def _seq(mod, ops, low, mx, hard, batch, start_connected=False):
   cover('ran')
   if L.stat(f.fullQueueDrops) - drops0 != expected_drops:
     raise AssertionError('discards not counted exactly')
+  # progress: once every timer has fired, a connected destination that is not paused has been sent everything
+  L.drain_clock(clock)
+  harvest()
+  if list(f.queue) != model:
+    raise AssertionError('queue differs from the model after the timers ran')
+  if proto is not None and not proto.paused and model:
+    raise AssertionError('quiescent, connected, not paused, yet %d accepted datapoints were never written' % len(model))
   return True
+
+
+def _progress(mod, e0, e1, low, mx, hard, batch):
+  """From a connected factory: two symbolic events, then one more arrival, then all timers fire:
+  everything accepted has been written to the live connection, exactly once and in order."""
+  evs = ['arrive', 'tick', 'lose_reconnect', 'pause_resume', 'self_metric', 'fail_reconnect']
+  clock = L.configure(mod, low, mx, hard, batch)
+  f = L.make_factory(mod)
+  proto, t, batches = L.connect(f)
+  conns = [batches]
+  expect = []
+  seqno = 0
+  for e in (e0, e1, 0):
+    name = evs[e]
+    if name == 'arrive':
+      item = ('m', (seqno, seqno))
+      seqno += 1
+      if len(f.queue) < hard:
+        expect.append(item)
+      f.sendDatapoint(*item)
+    elif name == 'self_metric':
+      item = ('carbon.self', (seqno, seqno))
+      seqno += 1
+      expect.append(item)
+      f.sendHighPriorityDatapoint(*item)
+    elif name == 'tick':
+      clock.advance(1)
+    elif name in ('lose_reconnect', 'fail_reconnect'):
+      L.lose(f, proto)
+      if name == 'fail_reconnect':
+        L.lose(f, None, failed=True)
+      proto, t, batches = L.connect(f)
+      conns.append(batches)
+    elif name == 'pause_resume':
+      proto.pauseProducing()
+      clock.advance(1)
+      proto.resumeProducing()
+  L.drain_clock(clock)
+  cover('quiesced')
+  sent = [x for bl in conns for b in bl for x in b]
+  if sorted(sent, key=lambda x: x[1]) != sorted(expect, key=lambda x: x[1]):
+    raise AssertionError('accepted %r, written %r' % (expect, sent))
+  if len(f.queue) != 0:
+    raise AssertionError('%d datapoints left queued at quiescence on a live connection' % len(f.queue))
+  normal = [x for x in sent if x[0] == 'm']
+  if normal != sorted(normal, key=lambda x: x[1]):
+    raise AssertionError('ordinary datapoints written out of arrival order')
+  return True
+
+
+def C07_progress(e0: int, e1: int, low: int, mx: int, hard: int, batch: int) -> bool:
+  """
+  pre: 0 <= e0 <= 5 and 0 <= e1 <= 5
+  pre: 0 <= low <= mx <= hard
+  pre: mx >= 1 and batch >= 1
+  post: __return__
+  """
+  return _progress(L.SHADOW, e0, e1, low, mx, hard, batch)
+
+
+def replay_progress(e0, e1, low, mx, hard, batch):
+  return _progress(L.real_client, e0, e1, low, mx, hard, batch)
 
 
 def C07_seq(o0: int, o1: int, o2: int, o3: int, n: int, low: int, mx: int, hard: int, batch: int, conn: bool) -> bool:
@@ -346,6 +415,11 @@ HARNESSES = [
     encodes=['carbon.client:CarbonClientFactory.disconnect', 'carbon.client:CarbonClientManager.stopClient',
              'carbon.client:CarbonClientFactory.stopConnecting', 'carbon.client:CarbonClientProtocol.disconnect'],
     assumptions=_ASSUME + ['queue length 0..5, batch size 1..6, stop via the factory and via CarbonClientManager.stopClient; timers run to quiescence']),
+  H('C07_progress', quick=dict(timeout=280, shards=[('e%d' % k, 'e0 == %d' % k) for k in range(6)]), covers=['quiesced'], replay='replay_progress',
+    encodes=['carbon.client:CarbonClientFactory.scheduleSend', 'carbon.client:CarbonClientFactory.clientConnectionLost / clientConnectionFailed',
+             'carbon.client:CarbonClientProtocol.connectionMade / sendQueued'],
+    assumptions=_ASSUME + ['from a connected factory: two symbolic events out of {arrival, timer tick, connection lost and re-established, pause+resume, self-metric, '
+                           'failed connect then re-established}, one more arrival, then every timer fires; unbounded symbolic thresholds and batch size']),
   H('C07_seq', quick=dict(timeout=280, shards=[('n%d_o%d_c%d' % (k, o, c), 'n == %d and o0 == %d and conn == %s' % (k, o, bool(c))) for k in (2, 3) for o in (0, 1, 2) for c in (0, 1)], extra_pre=['hard <= 2']),
     thorough=dict(timeout=1500, shards=[('n%d_o%d_c%d' % (k, o, c), 'n == %d and o0 == %d and conn == %s' % (k, o, bool(c))) for k in (1, 2, 3, 4) for o in range(8) for c in (0, 1)]),
     covers=['ran'], replay='replay_seq', twin_pre=['n <= 2'],
